@@ -116,6 +116,13 @@ fn main() {
                 }
             }
         }
+        // lpexport --cases F : to_lp_format token streams (C17)
+        "lpexport" => {
+            let cases = read_cases(&arg(&args, "--cases").expect("--cases"));
+            for c in &cases {
+                writeln!(out, "{}", lp::lpexport_event(c)).unwrap();
+            }
+        }
         _ => {
             eprintln!("usage: rv <lin> ...");
             std::process::exit(2);
